@@ -84,8 +84,10 @@ def run(chk, mode, tier, timeout=None, skip_alias_roots=False):
         params = lm.al.params()
         pre = list(lm.al.pre)
         if extra:
-            params = params + [("xname", "str")]
-            pre.append("xname.startswith('x-') and len(xname) <= 8")
+            params = params + [("xname", "str"), ("xkind", "int")]
+            names = sorted(_declared_names(table, lm.pos))
+            pre.append("len(xname) <= 8 and xname not in %r" % (tuple(names),))
+            pre.append("0 <= xkind < %d" % len(dispatch.EXTRA_PAYLOADS))
         # known findings: exclude the recorded region (if its witness still fails)
         for e in chk.known_for(lm.site):
             if chk.witness_still_fails(e):
@@ -98,7 +100,7 @@ def run(chk, mode, tier, timeout=None, skip_alias_roots=False):
         if any(not e.get("region") for e in excluded.get(lid, [])):
             continue  # whole site is a recorded finding (e.g. no handler at all)
         if extra:
-            env_with = "Env((%s), (%s), (%s), xname, 'payload')" % (
+            env_with = "Env((%s), (%s), (%s), xname, None, xkind, dispatch.EXTRA_PAYLOADS)" % (
                 "".join("b%d, " % i for i in range(lm.al.nbits)),
                 "".join("s%d, " % i for i in range(lm.al.nstrs)),
                 "".join("i%d, " % i for i in range(lm.al.nints)),
@@ -156,6 +158,31 @@ def run(chk, mode, tier, timeout=None, skip_alias_roots=False):
     return results, table
 
 
+def _declared_names(table, pos):
+    """every property name some alternative at this position declares (at any inspected depth): not 'unknown' there"""
+    names = set()
+
+    def rec(d):
+        if d["k"] == "obj":
+            for k, p in d["props"].items():
+                names.add(k)
+                rec(p["val"])
+        elif d["k"] == "list":
+            for e in d["elems"]:
+                rec(e)
+        elif d["k"] == "alt":
+            for a in d["alts"]:
+                rec(a)
+        elif d["k"] == "map":
+            for v in d["items"].values():
+                rec(v)
+
+    for lm in table.values():
+        if lm.pos is pos:
+            rec(lm.d)
+    return names
+
+
 def _hname(lm):
     h = lm.handler
     return getattr(h, "__qualname__", None) or repr(h)
@@ -191,8 +218,9 @@ def _replay(chk, mode, lm, r, spec):
         # no handler: any valid value of the alternative fails
         value = spec.sample(lm.alt_type)
     else:
-        env = shapes.env_from_args(r.args, {"nested": [1, "x"]})
+        env = shapes.env_from_args(r.args, dispatch.EXTRA_PAYLOADS[r.args["xkind"]] if "xkind" in r.args else {"nested": [1, "x"]})
         value = shapes.concretize(spec, lm.d, env)
+        extra_name = r.args.get("xname")
     tried = []
     for path in lm.pos.paths[:3]:
         try:
@@ -202,38 +230,33 @@ def _replay(chk, mode, lm, r, spec):
             continue
         root = replay.root_type(root_name)
         if mode == "C15":
-            base = _strip_extras(root_json)
-            ok0, d0, out0 = replay.roundtrip(base, root)
-            ok1, d1, out1 = replay.roundtrip(root_json, root, check_types=True)
-            if ok0 and (not ok1 or out0 != out1):
-                # with the extra key: fails or result differs. (loses_nothing flags the extra key itself as
-                # "disappeared", which is expected; compare outputs instead)
-                c = replay._conv()
-                try:
-                    o1 = json.loads(json.dumps(c.unstructure(c.structure(root_json, root), root), default=replay._enum_default))
-                except BaseException as e:  # noqa
-                    o1 = "raised %s" % type(e).__name__
-                if o1 != out0:
-                    chk.violation(
-                        "%s: undeclared property changes the result: %r vs %r" % (site, o1, out0),
-                        {"kind": "python", "code": _extra_code(base, root_json, root_name), "site": site},
-                    )
-                    return
+            base = _strip_extras(root_json, r.args.get("xname"))
+            code = _extra_code(base, root_json, root_name)
+            from . import leafrt
+
+            ok, detail = leafrt.run_code(code)
+            if not ok:
+                chk.violation("%s: undeclared property %r: %s" % (site, r.args.get("xname"), detail), {"kind": "python", "code": code, "site": site, "args": r.args})
+                return
             tried.append("%s: extra key had no concrete effect" % path)
             continue
         ok, detail, out = replay.roundtrip(root_json, root)
         if not ok:
             chk.violation("%s: %s" % (site, detail), {"kind": "roundtrip", "json": root_json, "root": root_name, "site": site, "args": r.args})
             return
+        ok2, detail2 = replay.roundtrip_fresh(root_json, root_name)
+        if not ok2:
+            chk.violation("%s: on the first converter created in a process: %s" % (site, detail2), {"kind": "roundtrip", "json": root_json, "root": root_name, "site": site, "args": r.args, "note": "reproduces only on the first converter of a process (run the replay in a fresh interpreter)"})
+            return
         tried.append("%s: %s" % (path, detail))
     chk.harness_error("counterexample at %s did not reproduce: %s | %s" % (site, r.message[:160], "; ".join(tried)[:300]))
 
 
-def _strip_extras(j):
+def _strip_extras(j, name):
     if isinstance(j, dict):
-        return {k: _strip_extras(v) for k, v in j.items() if not k.startswith("x-")}
+        return {k: _strip_extras(v, name) for k, v in j.items() if k != name}
     if isinstance(j, list):
-        return [_strip_extras(x) for x in j]
+        return [_strip_extras(x, name) for x in j]
     return j
 
 
@@ -244,10 +267,14 @@ def _extra_code(base, with_extra, root_name):
         "BASE = json.loads(%r)\nEXTRA = json.loads(%r)\n"
         "def replay():\n"
         "    c = converters.get_converter(); T = getattr(types, %r)\n"
-        "    a = c.unstructure(c.structure(BASE, T), T)\n"
+        "    o0 = c.structure(BASE, T); a = c.unstructure(o0, T)\n"
         "    try:\n"
-        "        b = c.unstructure(c.structure(EXTRA, T), T)\n"
+        "        o1 = c.structure(EXTRA, T); b = c.unstructure(o1, T)\n"
         "    except Exception as e:\n"
-        "        return (False, 'undeclared property makes structuring fail: %%r' %% e)\n"
-        "    return (a == b, 'results %%s' %% ('equal' if a == b else 'differ'))\n"
+        "        return (False, 'undeclared property makes structuring fail: %%s' %% type(e).__name__)\n"
+        "    if a != b:\n"
+        "        return (False, 're-serialisation differs: %%r vs %%r' %% (b, a))\n"
+        "    if o0 != o1:\n"
+        "        return (False, 'structured result differs: %%r vs %%r' %% (o1, o0))\n"
+        "    return (True, 'same result')\n"
     ) % (json.dumps(base), json.dumps(with_extra), root_name)
